@@ -200,9 +200,10 @@ func VerifPathLockWait() {
 	closed := false
 	finished := false
 	var f2 *File
+	extra := []Flag{0, FlagUpdMaxSize, FlagUnboundMaxSize | FlagUpdMaxSize}[verifChoose(3)]
 	go func() {
 		wopts := opts
-		wopts.Flags |= FlagWaitLock
+		wopts.Flags |= FlagWaitLock | extra // the wait flag may be combined with other flags
 		f, werr := Open(verifPath, 0600, wopts)
 		verifAssert(closed, "Open with the wait flag returns only after the first File was closed")
 		verifAssert(werr == nil && f != nil, "and then succeeds")
@@ -221,8 +222,14 @@ func VerifPathLockWait() {
 		verifPoll()
 	}
 	verifAssert(finished && f2 != nil, "the waiting Open completed after Close")
+	// the path is open again (by the waiter): a third Open must fail
+	f3, err3 := Open(verifPath, 0600, opts)
+	verifAssert(err3 != nil && f3 == nil, "while the waiter holds the file, a third Open fails")
 	verifAssert(f2.Close() == nil, "Close succeeds")
 	verifAssert(!verifFlockHeld(verifPath+".lock"), "the path lock is free at the end")
+	f4, err4 := Open(verifPath, 0600, opts)
+	verifAssert(err4 == nil && f4 != nil, "and the path can be opened again")
+	verifAssert(f4.Close() == nil, "Close succeeds")
 	verifReach("end")
 }
 
